@@ -29,7 +29,12 @@ import (
 //   sub:<client>:<k>:<qos>       SUBSCRIBE by a or b
 //   pub:<topic>:<retain>         PUBLISH QoS 1 by b
 // API calls run as a broker thread to quiescence. Every handler is a distinct closure that
-// records (its own filter and id, the subscription passed, topic, payload).
+// records (its own filter and id, its generation = the number of the Subscribe call that
+// registered it, the subscription passed, topic, payload). Server.Subscribe for a (filter, id)
+// that is already subscribed REPLACES the subscription, as a client re-sending SUBSCRIBE does
+// [MQTT-3.8.4-3]: the subscription made by the latest call (its handler) is the one that
+// "first receives the matching retained messages and then live messages"; the handler of the
+// replaced call must not be invoked any more.
 //
 // Reference model: inline subscriptions = set of (filter, id); client subscriptions
 // (client, filter) -> QoS; retained topic -> (tag, QoS). An identifier plays the role a
@@ -39,6 +44,7 @@ import (
 
 type c40Call struct {
 	own     string // "filter|id" of the handler that ran
+	gen     int    // number of the Subscribe call that registered the handler that ran
 	passed  string // "filter|id" of the subscription argument
 	topic   string
 	payload string
@@ -50,7 +56,8 @@ type c40Ret struct {
 }
 
 type c40Model struct {
-	isubs                              map[string]bool // "filter|id"
+	isubs                              map[string]int  // "filter|id" -> generation of the current handler
+	replaced                           map[string]bool // "filter|id" whose current handler replaced an earlier one (Subscribe while subscribed)
 	subs                               map[string]byte // "client|filter" -> qos
 	retained                           map[string]c40Ret
 	nisub, niunsub, nipub, nsub, ncpub int
@@ -70,15 +77,15 @@ func c40Run(arg string) explore.HistFn {
 	}
 	return func(hist []string) explore.HistResult {
 		h := newH(world.Config{Opts: func(o *mqtt.Options) { o.InlineClient = true }})
-		m := &c40Model{isubs: map[string]bool{}, subs: map[string]byte{}, retained: map[string]c40Ret{}}
+		m := &c40Model{isubs: map[string]int{}, replaced: map[string]bool{}, subs: map[string]byte{}, retained: map[string]c40Ret{}}
 		cnt := map[string]int{}
 		h.connect("a", world.ConnectPacket("a", 5, true))
 		h.connect("b", world.ConnectPacket("b", 4, true))
 		var calls []c40Call
-		handler := func(filter string, id int) mqtt.InlineSubFn {
+		handler := func(filter string, id, gen int) mqtt.InlineSubFn {
 			own := filter + "|" + itoa(id)
 			return func(cl *mqtt.Client, sub packets.Subscription, pk packets.Packet) {
-				calls = append(calls, c40Call{own, sub.Filter + "|" + itoa(sub.Identifier), pk.TopicName, string(pk.Payload)})
+				calls = append(calls, c40Call{own, gen, sub.Filter + "|" + itoa(sub.Identifier), pk.TopicName, string(pk.Payload)})
 			}
 		}
 		api := func(name string, fn func() error) {
@@ -106,6 +113,11 @@ func c40Run(arg string) explore.HistFn {
 				if c.own != c.passed {
 					h.violate("c40:inline-wrong-subscription-argument", "handler of %s invoked with subscription %s", c.own, c.passed)
 				}
+				if cur, ok := m.isubs[c.own]; ok && cur != c.gen {
+					// the subscription exists, but this handler belongs to a Subscribe call that a later one replaced
+					h.violate("c40:inline-replaced-handler-invoked:"+via, "%s on %q (%s): the handler registered by Subscribe call #%d for %s was invoked, but call #%d replaced it", tag, topic, via, c.gen, c.own, cur)
+					continue
+				}
 				perSub[c.own]++
 				var id int
 				fmt.Sscan(c.own[strings.IndexByte(c.own, '|')+1:], &id)
@@ -130,6 +142,11 @@ func c40Run(arg string) explore.HistFn {
 							shape = "overlap"
 						}
 					}
+					for _, s := range M {
+						if m.replaced[s] {
+							shape = "resubscribed" // the current handler was registered over an existing subscription
+						}
+					}
 					h.violate("c40:inline-missed:"+shape+":"+via, "%s on %q (%s): inline subscriptions %v of identifier %d match but no handler was invoked (all inline subscriptions %v)", tag, topic, via, M, id, explore.SortedKeys(m.isubs))
 				case n > len(M):
 					h.violate("c40:inline-duplicate:"+via, "identifier %d: %d invocations for %d matching subscriptions %v", id, n, len(M), M)
@@ -139,13 +156,19 @@ func c40Run(arg string) explore.HistFn {
 					if len(M) > 1 {
 						h.count(cnt, "inline_same_id_overlap", 1)
 					}
+					for _, s := range M {
+						if m.replaced[s] {
+							h.count(cnt, "inline_entitled_resubscribed", 1)
+							break
+						}
+					}
 				}
 			}
 			for s, n := range perSub {
 				if n > 1 {
 					h.violate("c40:inline-duplicate:"+via, "handler of %s invoked %d times for %s", s, n, tag)
 				}
-				if !m.isubs[s] {
+				if _, ok := m.isubs[s]; !ok {
 					h.violate("c40:inline-after-unsubscribe:"+via, "handler of %s invoked for %s although it is not subscribed (inline subscriptions %v)", s, tag, explore.SortedKeys(m.isubs))
 				}
 			}
@@ -204,14 +227,23 @@ func c40Run(arg string) explore.HistFn {
 				filter := c40Filters[f[1]]
 				id := int(f[2][0] - '0')
 				m.nisub++
-				api("Subscribe", func() error { return h.W.S.Subscribe(filter, id, handler(filter, id)) })
-				h.logf("Subscribe(%s,%d) -> calls %v", filter, id, calls)
+				gen := m.nisub
+				api("Subscribe", func() error { return h.W.S.Subscribe(filter, id, handler(filter, id, gen)) })
+				h.logf("Subscribe(%s,%d) #%d -> calls %v", filter, id, gen, calls)
 				own := filter + "|" + itoa(id)
-				m.isubs[own] = true
+				if _, held := m.isubs[own]; held {
+					m.replaced[own] = true
+					h.count(cnt, "inline_resubscribed", 1)
+				}
+				m.isubs[own] = gen
 				seen := map[string]int{}
 				for _, c := range calls {
 					if c.own != own {
 						h.violate("c40:inline-retained-to-other-handler", "Subscribe(%s,%d) invoked the handler of %s", filter, id, c.own)
+						continue
+					}
+					if c.gen != gen {
+						h.violate("c40:inline-retained-to-replaced-handler", "Subscribe(%s,%d) call #%d handed %s on %q to the handler registered by call #%d", filter, id, gen, c.payload, c.topic, c.gen)
 						continue
 					}
 					seen[c.topic+"="+c.payload]++
@@ -243,12 +275,13 @@ func c40Run(arg string) explore.HistFn {
 				m.niunsub++
 				api("Unsubscribe", func() error { return h.W.S.Unsubscribe(filter, id) })
 				h.logf("Unsubscribe(%s,%d)", filter, id)
-				if m.isubs[filter+"|"+itoa(id)] {
+				if _, ok := m.isubs[filter+"|"+itoa(id)]; ok {
 					h.count(cnt, "inline_unsubscribed", 1)
 				} else {
 					h.count(cnt, "inline_unsubscribe_of_other_id", 1)
 				}
 				delete(m.isubs, filter+"|"+itoa(id))
+				delete(m.replaced, filter+"|"+itoa(id))
 				if len(calls) > 0 {
 					h.violate("c40:inline-stray-invocation", "Unsubscribe(%s,%d) invoked handlers: %v", filter, id, calls)
 				}
@@ -359,7 +392,7 @@ func c40Run(arg string) explore.HistFn {
 		if m.niunsub < lim['n'] && pubsLeft {
 			for _, k := range []string{"1", "2", "3"} {
 				f := c40Filters[k]
-				if m.isubs[f+"|1"] || m.isubs[f+"|2"] {
+				if m.isubs[f+"|1"] > 0 || m.isubs[f+"|2"] > 0 {
 					next = append(next, "iunsub:"+k+":1", "iunsub:"+k+":2")
 				}
 			}
@@ -373,7 +406,7 @@ func c40Run(arg string) explore.HistFn {
 			}
 		}
 		sort.Strings(next)
-		key := h.W.State() + fmt.Sprintf("|model:%v|%v|%v|%d,%d,%d,%d,%d", explore.SortedKeys(m.isubs), m.subs, m.retained, m.nisub, m.niunsub, m.nipub, m.nsub, m.ncpub)
+		key := h.W.State() + fmt.Sprintf("|model:%v|repl%v|%v|%v|%d,%d,%d,%d,%d", explore.SortedKeys(m.isubs), explore.SortedKeys(m.replaced), m.subs, m.retained, m.nisub, m.niunsub, m.nipub, m.nsub, m.ncpub)
 		r := h.finish(key, next)
 		r.Counters = cnt
 		return r
@@ -501,7 +534,7 @@ func init() {
 			c.Rep.Count("c40_"+k, v)
 		}
 		if fullRun() && c.Rep.Get("transitions") > 0 {
-			for _, k := range []string{"inline_entitled", "client_deliveries", "client_deliveries_downgraded", "inline_retained_due", "inline_unsubscribed", "inline_unsubscribe_of_other_id"} {
+			for _, k := range []string{"inline_entitled", "client_deliveries", "client_deliveries_downgraded", "inline_retained_due", "inline_unsubscribed", "inline_unsubscribe_of_other_id", "inline_resubscribed", "inline_entitled_resubscribed"} {
 				if tot[k] == 0 {
 					c.Rep.Add(explore.Violation{Key: "internal:vacuous:" + k, Msg: fmt.Sprintf("C40 never exercised %s: %v", k, tot)})
 				}
